@@ -27,7 +27,7 @@ static POISONED: std::sync::atomic::AtomicBool = std::sync::atomic::AtomicBool::
 /// back: a deterministic stand-in for "bounded time" (about 10 s of wall clock here)
 const CMD_BUDGET_CALLS: u64 = 2_000_000;
 /// ptrace calls after which a session that still answers is ended early
-const SESSION_BUDGET_CALLS: u64 = 3_000_000;
+const SESSION_BUDGET_CALLS: u64 = 1_500_000;
 
 /// Installed at the seam: runs on the debugger's own thread when the budget is exhausted.
 fn install_deadline_hook(out: String) {
@@ -206,13 +206,20 @@ fn gen_line(t: &mut Tape) -> String {
 }
 
 /// Overwrite the stopped debuggee's frame (and what its pointers lead to) with hostile bytes.
-fn poison(t: &mut Tape, pid: i32, log: &mut Vec<String>) {
+fn poison(t: &mut Tape, pid: i32, style: usize, log: &mut Vec<String>) {
     let Ok(regs) = raw::getregs(pid) else { return };
     // the frame of `arena` sits above `stop_here`'s small frame
     let lo = regs.rsp;
     let len = 512 + 512 * t.choose(8) as u64;
     let Some(frame) = ns::read_mem(pid, lo, len as usize) else { return };
-    let kind = t.choose(9);
+    // style of the session: 0 any pattern, 1 field-level corruption only (everything else stays
+    // well formed for the whole session, so a single wrong header word is what the renderers
+    // meet), 2 wild patterns only
+    let kind = match style {
+        1 => 6 + t.choose(3),
+        2 => t.choose(6),
+        _ => t.choose(9),
+    };
     // every further decision of this fault comes from one tape value, hashed with the index of
     // the word it concerns: the tape advances by the same amount whatever the memory holds, and
     // the fate of a word does not depend on what other words happen to contain
@@ -223,12 +230,14 @@ fn poison(t: &mut Tape, pid: i32, log: &mut Vec<String>) {
         // field-level corruption: words that look like lengths / capacities / small counters
         // are zeroed, maximised or bumped one by one (everything else stays well formed)
         let mut n = 0;
+        // a half, a quarter or an eighth of them (per fault)
+        let den = [2u64, 4, 8][(h(u64::MAX, 6) % 3) as usize];
         for (k, w) in out.chunks_mut(8).enumerate() {
             if w.len() < 8 {
                 continue;
             }
             let v = u64::from_le_bytes(w.try_into().unwrap());
-            if (1..=64).contains(&v) && h(k as u64, 1) % 4 == 0 {
+            if (1..=64).contains(&v) && h(k as u64, 1) % den == 0 {
                 let nv: u64 = match kind {
                     6 => 0,
                     7 => u64::MAX,
@@ -372,6 +381,7 @@ pub fn run(spec: &WorkerSpec) -> WorkerResult {
     let nlines = 20 + tape.choose(spec.params.get("max_ops").and_then(|v| v.as_u64()).unwrap_or(50) as usize);
     let kill_at = if tape.chance(1, 5) { Some(tape.choose(nlines)) } else { None };
     let poison_p = [0usize, 10, 25][tape.choose(3)];
+    let style = tape.choose(3);
     let mut killed = false;
     for k in 0..nlines {
         if seam::N_PTRACE.load(std::sync::atomic::Ordering::Relaxed) > SESSION_BUDGET_CALLS {
@@ -394,16 +404,26 @@ pub fn run(spec: &WorkerSpec) -> WorkerResult {
             bump(&mut stats, "c08.fault_debuggee_killed");
             log.push("    fault: debuggee SIGKILLed from outside".into());
         }
+        let mut just_poisoned = false;
         if !killed && poison_p > 0 && tape.chance(poison_p, 100) {
-            poison(&mut tape, pid, &mut log);
+            poison(&mut tape, pid, style, &mut log);
+            bump(&mut stats, ["c08.fault_style_any", "c08.fault_style_field_level_only", "c08.fault_style_wild_only"][style]);
             POISONED.store(true, std::sync::atomic::Ordering::SeqCst);
             bump(&mut stats, "c08.fault_memory_poisoned");
+            just_poisoned = true;
         }
-        if !killed && k % 5 != 4 {
+        if !killed && (k % 5 != 4 || just_poisoned) {
             // most commands look at the frame of `arena` (frame 1), where the values live
             let _ = dbg.set_frame_into_focus(1);
         }
-        let line = gen_line(&mut tape);
+        // a fault is placed in front of an operation that looks at what it changed: half of the
+        // time the next command renders every local of the poisoned frame (or one of them)
+        let line = if just_poisoned && tape.chance(1, 2) {
+            bump(&mut stats, "c08.render_right_after_fault");
+            if tape.chance(2, 3) { "var locals".to_string() } else { format!("var {}", NAMES[tape.choose(NAMES.len())]) }
+        } else {
+            gen_line(&mut tape)
+        };
         let shown: String = line.chars().take(120).collect();
         // the panic hook reports through the partial log: record the line before running it
         if let Ok(mut p) = crate::PARTIAL.lock() {
